@@ -252,6 +252,8 @@ func (e *linEnv) linTerm(t *Term) (Lin, error) {
 				return Lin{}, err
 			}
 			return hi.add(lo, -1), nil
+		case "makeslice":
+			return e.linTerm(x.Args[0])
 		case "phi":
 			// len of a φ of slices: split
 			if ph, ok := x.Val.(*ssa.Phi); ok && x.C != nil && !x.C.loopCarried(ph) {
@@ -431,6 +433,55 @@ func (c *Ctx) entailsLinearRec(env *linEnv, pc *Formula, facts []LinFact, depth 
 		addLens(lf.a)
 		addLens(lf.b)
 	}
+	// induction variables: φ(c0, φ + k) with k > 0 never drops below c0 (covers range indices)
+	seenInd := map[string]bool{}
+	var indWalk func(t *Term)
+	addInd := func(t *Term) {
+		ph, ok := t.Val.(*ssa.Phi)
+		if !ok || t.C == nil || !t.C.loopCarried(ph) || seenInd[t.Key()] {
+			return
+		}
+		var c0 *int64
+		okStep := true
+		for _, ed := range ph.Edges {
+			if k, ok := ed.(*ssa.Const); ok && k.Value != nil && isInteger(k.Type()) {
+				v := k.Int64()
+				if c0 != nil && *c0 != v {
+					okStep = false
+				}
+				c0 = &v
+				continue
+			}
+			bo, ok := ed.(*ssa.BinOp)
+			if !ok || bo.Op != token.ADD || bo.X != ssa.Value(ph) {
+				okStep = false
+				continue
+			}
+			if k, ok := bo.Y.(*ssa.Const); !ok || k.Int64() <= 0 {
+				okStep = false
+			}
+		}
+		if c0 != nil && okStep {
+			seenInd[t.Key()] = true
+			v := linVar(t)
+			background = append(background, leq(linConst(*c0), v, 0, t.String()+" ≥ its initial value"))
+		}
+	}
+	indWalk = func(t *Term) {
+		t.walk(func(x *Term) bool {
+			if x.Kind == "phi" {
+				addInd(x)
+			}
+			return true
+		})
+	}
+	for _, at := range full.Atoms() {
+		indWalk(at)
+	}
+	for _, f := range facts {
+		indWalk(f.A)
+		indWalk(f.B)
+	}
 	failure := ""
 	// cone of influence: only comparison atoms sharing (transitively) a variable with the facts
 	// can matter to the arithmetic; every other atom is existentially quantified.
@@ -444,6 +495,12 @@ func (c *Ctx) entailsLinearRec(env *linEnv, pc *Formula, facts []LinFact, depth 
 		}
 	}
 	relAtom := map[string]bool{}
+	// comparisons that became constant under the current case choices decide themselves
+	for _, la := range latoms {
+		if la.a.isConst() && la.b.isConst() {
+			relAtom[la.key] = true
+		}
+	}
 	for changed := true; changed; {
 		changed = false
 		for _, la := range latoms {
@@ -475,6 +532,7 @@ func (c *Ctx) entailsLinearRec(env *linEnv, pc *Formula, facts []LinFact, depth 
 	}
 	err := forEachModelOver(full, func(t *Term) bool { return relAtom[t.Key()] }, func(asg Assignment) bool {
 		cs := append([]Constraint{}, background...)
+		var diseq [][2]Lin
 		for _, la := range latoms {
 			v, assigned := asg[la.key]
 			if !assigned {
@@ -487,17 +545,32 @@ func (c *Ctx) entailsLinearRec(env *linEnv, pc *Formula, facts []LinFact, depth 
 				cs = append(cs, leq(la.b, la.a, 0, "")) // b ≤ a
 			case la.name == "==" && v:
 				cs = append(cs, leq(la.a, la.b, 0, ""), leq(la.b, la.a, 0, ""))
+			case la.name == "==" && !v:
+				if len(diseq) < 4 {
+					diseq = append(diseq, [2]Lin{la.a, la.b}) // a ≠ b: a < b or b < a
+				}
 			}
 		}
-		if !feasible(cs) {
-			return true // this truth-table row is arithmetically impossible
-		}
-		for _, lf := range lfacts {
-			// negation of a − b ≤ k is b − a ≤ −k − 1
-			neg := leq(lf.b, lf.a, -lf.k-1, "")
-			if feasible(append(append([]Constraint{}, cs...), neg)) {
-				failure = fmt.Sprintf("%s is not entailed when %s (case choices %v): %s − (%s) ≤ %d can fail", lf.text, renderAssignment(full, asg), env.choices, lf.a, lf.b, lf.k)
-				return false
+		// expand the disequalities into their 2^k orderings
+		for mask := 0; mask < 1<<uint(len(diseq)); mask++ {
+			cc := append([]Constraint{}, cs...)
+			for i, d := range diseq {
+				if mask&(1<<uint(i)) == 0 {
+					cc = append(cc, leq(d[0], d[1], -1, ""))
+				} else {
+					cc = append(cc, leq(d[1], d[0], -1, ""))
+				}
+			}
+			if !feasible(cc) {
+				continue // this case is arithmetically impossible
+			}
+			for _, lf := range lfacts {
+				// negation of a − b ≤ k is b − a ≤ −k − 1
+				neg := leq(lf.b, lf.a, -lf.k-1, "")
+				if feasible(append(append([]Constraint{}, cc...), neg)) {
+					failure = fmt.Sprintf("%s is not entailed when %s (case choices %v): %s − (%s) ≤ %d can fail", lf.text, renderAssignment(full, asg), env.choices, lf.a, lf.b, lf.k)
+					return false
+				}
 			}
 		}
 		return true
